@@ -545,6 +545,39 @@ func SplitSign(args []string) {
 			os.Remove(out)
 			os.Remove(in)
 		}
+		// the same for a file that already carries a signature: what the server digests from the upload stream must skip
+		// the old signature exactly as the verifier of the patched file will (vsix / xap re-signing: known findings of
+		// C08; wrappers and detached outputs have no "previous signature" inside the input)
+		if !ti.Detached && ti.OutExt == "" && ti.Name != "vsix" && ti.Name != "xap" && !strings.HasPrefix(ti.Name, "pgp-") {
+			first := e.fixture(&ti, fmt.Sprintf("presign-%s", ti.Name), 0)
+			useAlt = false
+			signed1, err := e.standalone(&ti, first, nil)
+			useAlt = v.alt
+			if err != nil {
+				r.Note("%s: first signature for the presigned input failed: %v", ti.Name, err)
+			} else {
+				for pi, pat := range pats[:3] {
+					in := filepath.Join(filepath.Dir(signed1), fmt.Sprintf("presigned-%d-%s", pi, filepath.Base(signed1)))
+					copyFile(signed1, in)
+					out, err := e.standalone(&ti, in, func(s io.Reader) io.Reader { return &splitReader{r: s, pattern: pat} })
+					key := map[string]string{"engine": "splitsign", "type": ti.Name, "input": "presigned"}
+					rep := map[string]any{"type": ti.Name, "pattern": pat, "alt": v.alt, "input": "presigned"}
+					r.Eval(true)
+					if err != nil {
+						key["kind"] = "split-sign-fails"
+						r.Fail(key, rep, "%s (input already signed): signing with read sizes %v fails: %v", ti.Name, pat, err)
+					} else if verr := e.w.VerifyFile(&ti, ki, out, in); verr != nil {
+						key["kind"] = "split-unverifiable"
+						r.Fail(key, rep, "%s (input already signed, second signature with alt options=%v): stream delivered in reads of %v: the verifier rejects the result: %v", ti.Name, v.alt, pat, verr)
+					}
+					r.Count("presigned_inputs", 1)
+					os.Remove(out)
+					os.Remove(in)
+				}
+				os.Remove(signed1)
+			}
+			os.Remove(first)
+		}
 		if !v.alt {
 			r.Count("types_split", 1)
 		}
